@@ -41,10 +41,6 @@ finding("C05-same-column-merged", "C05", ["C01"],
  "the same column selected / derived twice in one frame (`derive {b = b}`, `select {x = id, id}`, `derive {c = a}` + later split) (hazard dup_select)",
  "Two frame columns backed by the same column id are merged or re-ordered: `from t1 | select {a, b} | derive {b = b}` has the 3-column frame [a, _, b] in RQ and compiles to `SELECT a, b FROM t1`.",
  {"source": "from t1 | select {a, b} | derive {b = b}", "arity": 3})
-finding("C02-double-negation", "C02", ["C01", "C07"],
- "unary minus applied to an expression whose SQL starts with a minus, directly or after inlining a computed column (hazard neg_neg)",
- "`-(-id)` is emitted as `--id`, which starts an SQL comment: `from t1 | select {c = -(-id)}` -> `SELECT --id AS c FROM t1` (syntax error / rest of the line swallowed).",
- {"source": "from t1 | select {c = -(-id)}", "arity": 1, "rows": [[I(1)],[I(2)],[I(3)]]})
 finding("C07-offset-without-limit", "C07", ["C01", "C03", "C06"],
  "`take a..` with a > 1 and no upper bound under a dialect that needs LIMIT before OFFSET (sqlite) (hazard open_take)",
  "`from t1 | select {id} | sort id | take 2..` compiles for sqlite to `... ORDER BY id OFFSET 1`, which SQLite rejects (near \"OFFSET\": syntax error); SQLite needs `LIMIT -1 OFFSET 1`.",
@@ -164,6 +160,10 @@ finding("C14-float-loses-fraction", "C14", [],
  "Literal::Float is printed with `{}`: `derive {c = 3.0}` is formatted as `derive {c = 3}`, which parses to Integer(3): `prqlc fmt` changes the literal's kind (and e.g. `1 / 2.0` style arithmetic on integer-dividing targets). The behaviour is recorded in the fmt snapshots of the integration queries (arithmetic.prql: `x_float = 13.0` -> `x_float = 13`), so it is recorded here rather than repaired.",
  None)
 
+finding("C14-star-alias-unquoted", "C14", [],
+ "an alias (`name = expr`) whose name is exactly `*` (written in backticks); the formatted text has a bare `* =` and does not parse",
+ "write_ident_part lets `*` through unquoted because the last part of `t.*` is stored as the identifier part `*`; for an alias that is wrong: `select {`*` = a}` is formatted as `select {* = a}` (parse error). Only reachable with an alias literally named `*`.",
+ None)
 finding("C13-parser-resolver-spans-are-byte-offsets", "C13", ["C12"],
  "a syntactic / resolution / type / SQL-generation error (not a lexer error) whose position is preceded by multi-byte text; the ASCII twin of the source (same length in characters) passes every check",
  "Token spans are byte offsets (chumsky over &str); only lexer errors are converted to character offsets (convert_lexer_error). ErrorMessages::composed feeds parser and resolver spans to ariadne, which counts characters: after `# é` the reported column is one too far (`Unknown name zzz_col` at 3:144 instead of 3:143), `span` (documented as a character offset) is the byte offset, and when the byte offset exceeds the character count `assert!(e.location.is_some())` panics (error_message.rs:153). Not repaired: it needs a decision on the unit of the public `span` field across lexer, parser and resolver errors.",
@@ -279,8 +279,8 @@ finding("C09-generated-cte-name-equals-user-column", "C09", [],
  None)
 
 finding("C09-helper-column-name-equals-user-column", "C09", [],
- "a user column or alias is named like a generated helper column (`_expr_N`) in a program for which the compiler needs a helper column",
- "`select {_expr_1, limit = A % 1, _expr_0 = 0 ** 0} | filter _expr_1 + 1 != limit + 3 | filter (rank limit) > 2`: the windowed filter needs a helper column; the compiler names it `_expr_1`, which is the user's column: the emitted `WHERE _expr_1 > 2` filters on the user's column and the RANK() is never computed.",
+ "a user table, column or alias is named like a generated helper column (`_expr_N`) in a program for which the compiler needs a helper column",
+ "`select {_expr_1, limit = A % 1, _expr_0 = 0 ** 0} | filter _expr_1 + 1 != limit + 3 | filter (rank limit) > 2`: the windowed filter needs a helper column; the compiler names it `_expr_1`, which is the user's column: the emitted `WHERE _expr_1 > 2` filters on the user's column and the RANK() is never computed. With a user *table* named `_expr_1`: the helper `window.user AS _expr_1` is removed from the projection by deduplicate_select_items because `_expr_1` was already seen as the qualifier of `_expr_1.Mixed`, and the later `ORDER BY _expr_1` has no such column.",
  None)
 
 finding("C08-quote-sequences-treated-as-already-escaped", "C08", [],
@@ -324,7 +324,7 @@ finding("C08-nul-character", "C08", [],
  None)
 
 k = json.load(open(os.path.join(V, "known_findings.json")))
-REMOVED = {"C11-column-order-hash-dependent", "C11-error-text-hash-dependent"}  # repaired by a fix: commit (see "fixed")
+REMOVED = {"C11-column-order-hash-dependent", "C11-error-text-hash-dependent", "C02-double-negation"}  # repaired by a fix: commit (see "fixed")
 keep = [f for f in k["findings"] if f["id"] not in {x["id"] for x in FINDINGS} and f["id"] not in REMOVED]
 k["findings"] = keep + FINDINGS
 json.dump(k, open(os.path.join(V, "known_findings.json"), "w"), indent=1, ensure_ascii=False)
